@@ -20,6 +20,12 @@ theorem returns_requested (valid : Pat → Bool) (sched : List (Nat × Pat)) (t 
     res = (if valid p then some p else none) :=
   Rexp.returns_requested valid sched t p res h
 
+/-- afterwards, alone: whatever the schedule was, asking the dictionary for a pattern gives that pattern's own expression
+    (the after-phase of the correspondence check asks every pattern of a case again once the goroutines are done) -/
+theorem afterwards_own_expression (valid : Pat → Bool) (sched : List (Nat × Pat)) (k r : Pat)
+    (h : lookup k (runSched valid g0 sched).published = some r) : r = k :=
+  ((cache_entries_belong valid sched) k r (lookup_mem h)).1
+
 /-- an invalid pattern is reported, never cached -/
 theorem invalid_reported_never_cached (valid : Pat → Bool) (sched : List (Nat × Pat)) (k r : Pat)
     (hm : (k, r) ∈ (runSched valid g0 sched).published) : valid k = true :=
